@@ -302,6 +302,14 @@ def setup_problem(case):
         lp = line_logp(post, theta, i, xs)
         j = int(np.argmax(lp))
         mode = xs[j]
+        if not np.isfinite(lp[j]) or lp[j] < -1e200:
+            raise Inconclusive("conditioning point outside the support of the posterior")
+        # the quantifier restricts C20 to unimodal conditionals: count the local maxima that rise above e^-12 of the peak
+        rel = lp - lp[j]
+        inner = rel[1:-1]
+        peaks = np.nonzero((inner > rel[:-2]) & (inner >= rel[2:]) & (inner > -12.0))[0]
+        if len(peaks) > 1:
+            raise Inconclusive("conditional not unimodal along this line")
         above = xs[lp > lp[j] - 0.5]
         w = max(0.5 * (above[-1] - above[0]), 1e-6 * width[i])   # ~ one standard deviation of the conditional
         if abs(theta[i] - mode) > 3.5 * w:
@@ -316,6 +324,12 @@ def setup_problem(case):
             if case["kinds"][i] == "beta":
                 hi = min(hi, base + sc * (1 - 1e-9))
         cut = cut or case["lo_w"][i] < 4 or case["hi_w"][i] < 4
+        scan = np.linspace(lo, hi, 1201)
+        rel2 = line_logp(post, theta, i, scan)
+        rel2 = rel2 - rel2.max()
+        inner2 = rel2[1:-1]
+        if np.count_nonzero((inner2 > rel2[:-2]) & (inner2 >= rel2[2:]) & (inner2 > -12.0)) > 1:
+            raise Inconclusive("conditional not unimodal inside the bounds")
         bounds.append((float(lo), float(hi)))
         info.append((mode, w))
     return post, theta, bounds, info, correlated, cut
